@@ -1,8 +1,12 @@
 package simharness
 
 import (
+	"context"
 	"fmt"
+	"io"
 	"strings"
+
+	"github.com/ddddddO/gtree"
 )
 
 func init() {
@@ -179,4 +183,61 @@ func caseC05(c *Ctx) {
 		}
 	}
 	c.st.Sample(form, map[string]any{"form": form, "op": op.String(), "forest": forestString(forest), "stop_indices_enumerated": len(ks)})
+	if op.Kind == "walkiter" {
+		c05Deferred(c, forest[0], branch, op.Alias)
+	}
+}
+
+// c05Deferred: an iterator is created, the program does something else with the same tree
+// (adds a node, renders it with other branch strings), and only then consumes the
+// iterator - once, and a second time. Each consumption is a walk of the tree as it is then.
+func c05Deferred(c *Ctx, model *MNode, branch []string, alias bool) {
+	m := model.Clone()
+	root := buildNode(m)
+	opts := opOptions(Op{Branch: branch}, context.Background(), "")
+	it := gtree.WalkIterFromRoot(root, opts...)
+	if alias {
+		it = gtree.WalkIterProgrammably(root, opts...)
+	}
+	action := c.Draw(4)
+	var acts []string
+	if action == 1 || action == 3 {
+		root.Add("late-node")
+		m.Kids = append(m.Kids, &MNode{Name: "late-node"})
+		acts = append(acts, "Add(late-node) under the root")
+	}
+	if action == 2 || action == 3 {
+		other := branchSets[1]
+		if len(branch) == 4 && branch[0] == other[0] {
+			other = branchSets[3]
+		}
+		gtree.OutputFromRoot(io.Discard, root, gtree.WithBranchFormatLastNode(other[0], other[1]), gtree.WithBranchFormatIntermedialNode(other[2], other[3]))
+		acts = append(acts, "OutputFromRoot with other branch strings")
+	}
+	c.st.Count("deferred-consumption")
+	c.Scenario["between_creation_and_consumption"] = acts
+	want := modelVisits([]*MNode{m}, branch)
+	for round := 1; round <= 2; round++ {
+		var got []Visit
+		var gerr error
+		for wn, err := range it {
+			if err != nil {
+				gerr = err
+				break
+			}
+			got = append(got, visitOf(wn))
+		}
+		c.st.Count("evaluations")
+		if gerr != nil {
+			c.Failf("C05:deferred-iteration-error", "round %d: %v", round, gerr)
+		}
+		if len(got) != len(want) {
+			c.Failf("C05:deferred-iteration-visit-count", "iterator consumed after %v (round %d): %d visits, the tree has %d nodes", acts, round, len(got), len(want))
+		}
+		for i := range got {
+			if visitKey(got[i]) != visitKey(want[i]) {
+				c.Failf("C05:deferred-iteration-stale", "iterator consumed after %v (round %d): visit %d is %s, the tree as it is now gives %s", acts, round, i, visitKey(got[i]), visitKey(want[i]))
+			}
+		}
+	}
 }
